@@ -350,6 +350,15 @@ def ptr(cx, e, depth=0):
     return ("P(%s)" % cx.desc(e), Lin())
 
 
+# write primitives whose effect is a permutation / fill of a slice: not expressible as one
+# (source, destination, count) move - a function that uses one is reported as "not decided"
+UNLIFTED = ("core::slice::<impl [T]>::rotate_left", "core::slice::<impl [T]>::rotate_right", "core::slice::<impl [T]>::swap", "core::slice::<impl [T]>::reverse",
+            "core::slice::<impl [T]>::fill", "core::slice::<impl [T]>::fill_with", "core::slice::<impl [T]>::swap_with_slice", "core::ptr::write_bytes",
+            "core::ptr::mut_ptr::<impl *mut T>::write_bytes", "core::ptr::swap", "core::ptr::swap_nonoverlapping", "core::mem::swap",
+            "core::slice::<impl [T]>::sort_unstable", "core::slice::<impl [T]>::split_at_mut", "core::str::<impl str>::split_at_mut")
+UNLIFTED_SEEN = {}
+
+
 class Move:
     def __init__(self, kind, src, dst, n, cx, bb, line, note=""):
         self.kind, self.src, self.dst, self.n, self.cx, self.bb, self.line, self.note = kind, src, dst, n, cx, bb, line, note
@@ -364,6 +373,8 @@ def moves_of(root):
     -> (list of Move in block order per frame, list of (callee, receiver root, Lin, cx, bb))"""
     F = root.facts
     moves, lens = [], []
+    unlifted = UNLIFTED_SEEN.setdefault(root.path, [])
+    del unlifted[:]
 
     def walk(cx, d, seen, top=None):
         b = cx.body
@@ -400,6 +411,8 @@ def moves_of(root):
                 moves.append(Move("encode_utf8", ("CHAR(%s)" % cx.desc(args[0]), Lin()), (v[0], v[1]), v[2] if v[2] is not None else Lin.sym("?len"), cx, bb, line))
             elif n in ("repr::Repr::set_len", "repr::heap_buffer::HeapBuffer::set_len", "repr::Repr::truncate_unchecked") and len(args) == 2:
                 lens.append((n, _root(cx, args[0]), lin(cx, args[1]), cx, bb, line))
+            elif n in UNLIFTED:
+                unlifted.append(leaf)
             for m in moves:
                 if m.cx is cx and m.bb == bb:
                     m.rootbb = rootbb
@@ -441,10 +454,19 @@ def rule_moves(ctx, rule="T7-moves"):
     def show(ms):
         return "; ".join(str(m) for m in ms) or "none"
 
+    def undecided(b):
+        u = UNLIFTED_SEEN.get(b.path) or []
+        if u:
+            ctx.ob(rule, b.path, "moves", True, how="uses %s (a permutation / fill, not a single move): byte-move clause not decided for this function" % ", ".join(sorted(set(u))))
+        return bool(u)
+
     # ---- push_str(self, s): s's bytes land at [len, len + |s|), then the length is len + |s|
     b = need_anchor("repr::Repr::push_str")
     if b:
         ms, ls = moves_of(b)
+        if undecided(b):
+            b = None
+    if b:
         S = L("p2")
         want = (("TXT(p2)", Lin()), ("BUF(p1)", L("p1")), S)
         ok = len(ms) == 1 and (ms[0].src, ms[0].dst, ms[0].n) == want and not ms[0].note
@@ -457,6 +479,9 @@ def rule_moves(ctx, rule="T7-moves"):
     b = need_anchor("repr::Repr::insert_str")
     if b:
         ms, ls = moves_of(b)
+        if undecided(b):
+            b = None
+    if b:
         S, i = L("p3"), P(2)
         tail = [m for m in ms if m.src[0] == "BUF(p1)" and m.dst[0] == "BUF(p1)"]
         ins = [m for m in ms if m.src[0] == "TXT(p3)"]
@@ -478,6 +503,9 @@ def rule_moves(ctx, rule="T7-moves"):
     b = need_anchor("repr::Repr::remove")
     if b:
         ms, ls = moves_of(b)
+        if undecided(b):
+            b = None
+    if b:
         i = P(2)
         ok, why = False, show(ms)
         w = None
